@@ -165,6 +165,7 @@ func vfExecute(t *testing.T, sc *vfScenario, trace bool) (res *vfResult) {
 		synctest.Test(t, func(t *testing.T) {
 			sim = vfNewSim(tape, p.maxSteps)
 			sim.traceOn = trace
+			sim.pct = sc.cfg("pct", 0) != 0
 			t0 := time.Now()
 			run := &vfRun{sc: sc, sim: sim, t: t, res: res}
 			func() {
@@ -667,6 +668,9 @@ func vfWorkerRun(t *testing.T, journal string) {
 			seed := vfMix(vfMix(base, vfHashStr(prop+"/"+class)), uint64(idx))
 			sc := p.gen(class, seed, tier)
 			sc.Prop, sc.Class, sc.Seed = prop, class, seed
+			if sc.Cfg != nil && vfMix(seed, 0x9c7)%3 == 0 {
+				sc.Cfg["pct"] = 1 // a third of the runs use priority scheduling
+			}
 			runOne(sc, idx)
 		}
 	}
